@@ -426,6 +426,35 @@ theorem Returns.ret_of {ext : Ext} {env : Env} {e : Expr} (r : M Val) (he : eval
   | error err => exact ⟨env, Runs.ret_err he⟩
   | ok v => exact Or.inl (Runs.ret he)
 
+theorem Returns.raise (ext : Ext) (env : Env) (e : PyErr) : Returns ext (.raise e) env (.error e) := ⟨env, Runs.raise _ _ _⟩
+
+/-- `if c: a else: b` as the last statement of a body -/
+theorem Returns.ite {ext : Ext} {env : Env} {c : Expr} {a b : Stmt} {ra rb : M Val} (r : M Bool) (hc : evalExpr ext env c >>= truth = r)
+    (ha : r = .ok true → Returns ext a env ra) (hb : r = .ok false → Returns ext b env rb) :
+    Returns ext (.ite c a b) env (r >>= fun t => if t then ra else rb) := by
+  cases r with
+  | error err => exact ⟨env, Runs.ite_err hc⟩
+  | ok t =>
+    cases t with
+    | true =>
+      have := ha rfl
+      simp only [bind, Except.bind, if_true]
+      cases ra with
+      | error e => obtain ⟨e'', this⟩ := this; exact ⟨e'', Runs.ite_true hc this⟩
+      | ok v =>
+        rcases this with this | ⟨hv, e, this⟩
+        · exact Or.inl (Runs.ite_true hc this)
+        · exact Or.inr ⟨hv, e, Runs.ite_true hc this⟩
+    | false =>
+      have := hb rfl
+      simp only [bind, Except.bind, Bool.false_eq_true, if_false]
+      cases rb with
+      | error e => obtain ⟨e'', this⟩ := this; exact ⟨e'', Runs.ite_false hc this⟩
+      | ok v =>
+        rcases this with this | ⟨hv, e, this⟩
+        · exact Or.inl (Runs.ite_false hc this)
+        · exact Or.inr ⟨hv, e, Runs.ite_false hc this⟩
+
 theorem ok_bind {α β : Type} (a : α) (f : α → M β) : ((Except.ok a : M α) >>= f) = f a := rfl
 theorem err_bind {α β : Type} (e : PyErr) (f : α → M β) : ((Except.error e : M α) >>= f) = Except.error e := rfl
 
